@@ -113,6 +113,13 @@ func genC18(seed int64, tier string) *Scenario {
 			}
 		}
 		sort.Strings(cands)
+		if len(cands) > 0 && r.Intn(4) == 0 {
+			// delete + re-create of the same file reported in one watcher batch (git checkout, atomic
+			// save by rename): the file exists at the end
+			p := cands[r.Intn(len(cands))]
+			sc.Ops = append(sc.Ops, Op{Kind: "fsremove", Path: p}, Op{Kind: "fswrite", Path: p, Data: Bytes("local M = {}\nM.recreated = 1\nreturn M\n")}, Op{Kind: "deliver"}, Op{Kind: "check"})
+			continue
+		}
 		if len(cands) > 0 && r.Intn(2) == 0 {
 			p := cands[r.Intn(len(cands))]
 			delete(exists, p)
